@@ -730,6 +730,9 @@ class FuncVerifier(object):
         if elem == 'cplx':
             return self.cplx_of(val)
         v = to_z3(val)
+        if elem == 'bool':
+            v = as_num(v)
+            return z3.If(v != 0, z3.IntVal(1), z3.IntVal(0))
         if elem == 'int':
             v = as_num(v)
             if not z3.is_int(v):
@@ -1460,7 +1463,14 @@ class FuncVerifier(object):
         return None
 
     def row_mask_subscript(self, sl, st):
-        """the boolean ROW mask of a subscript  a[b]  with b a name bound to a 1-D boolean array / comparison"""
+        """the boolean ROW mask of a subscript  a[b]  with b a name bound to a 1-D boolean array / comparison, or numpy.repeat(name, 2)"""
+        if isinstance(sl, ast.Call) and isinstance(sl.func, ast.Attribute) and sl.func.attr == 'repeat' and len(sl.args) == 2 \
+                and isinstance(sl.args[0], ast.Name) and isinstance(sl.args[1], ast.Constant) and sl.args[1].value == 2:
+            v0 = st.env.get(sl.args[0].id)
+            if isinstance(v0, Ref) and isinstance(st.heap.get(v0.loc), AV) and st.heap[v0.loc].elem == 'bool' and st.heap[v0.loc].ndim == 1:
+                av0 = st.heap[v0.loc]
+                return AV(self.lib.theory.decls['Repeat2'](av0.term), (2 * av0.shape[0],), 'bool')
+            return None
         if not isinstance(sl, ast.Name):
             return None
         v = st.env.get(sl.id)
@@ -1474,6 +1484,11 @@ class FuncVerifier(object):
         return None
 
     def row_gather(self, av, m, st, node):
+        if av.ndim == 1:
+            # x[m] of a 1-D array: the spec term Compress(x, m, n)
+            self.oblige(st, self.site(node, 'shape'), m.shape[0] == av.shape[0], node)
+            idx, cnt, pos = self.mask_facts(m, st)
+            return st.alloc(AV(self.lib.theory.decls['Compress'](av.term, m.term, m.shape[0]), (cnt,), av.elem))
         if av.ndim != 2:
             raise OutOfFragment('boolean row indexing of a non-2-D array', node)
         self.oblige(st, self.site(node, 'shape'), m.shape[0] == av.shape[0], node)
@@ -1665,6 +1680,11 @@ class FuncVerifier(object):
         for a in n.args:
             if isinstance(a, ast.Starred):
                 v = self.pev(a.value, st)
+                if isinstance(v, Ref) and isinstance(st.heap.get(v.loc), AV) and st.heap[v.loc].ndim == 1 and st.heap[v.loc].elem == 'int' \
+                        and len(n.args) == 1:
+                    # f(*a) with a 1-D integer array as the only argument: the callee's *varargs is that integer sequence
+                    args.append(Tag('stararray', v))
+                    continue
                 if not isinstance(v, tuple):
                     raise OutOfFragment('*args of a non-tuple', n)
                 args.extend(v)
@@ -1793,7 +1813,13 @@ class FuncVerifier(object):
         for nm, v in zip(names, args):
             env[nm] = v
         if a.vararg is not None:
-            env[a.vararg.arg] = tuple(args[len(names):])
+            rest = args[len(names):]
+            if len(rest) == 1 and isinstance(rest[0], Tag) and rest[0].kind == 'stararray':
+                env[a.vararg.arg] = rest[0][1]          # the integer sequence itself (a tuple of ints is modelled as an int array)
+            else:
+                env[a.vararg.arg] = tuple(rest)
+        elif any(isinstance(x, Tag) and x.kind == 'stararray' for x in args):
+            raise OutOfFragment('*array passed to a function without *varargs', node)
         kwargs = dict(kwargs)
         defaults = dict(zip(names[len(names) - len(a.defaults):], a.defaults))
         for nm in names[len(args):]:
@@ -1963,6 +1989,10 @@ class FuncVerifier(object):
                 if z3.is_int_value(ax) and ax.as_long() in (-1, 1):
                     return st.alloc(AV(self.lib.theory.decls['RowSums'](av.term, av.shape[1]), (av.shape[0],), 'int'))
             raise OutOfFragment('numpy.sum form', n)
+        if short == 'arange' and len(n.args) == 1 and not n.keywords:
+            nn = as_num(self.pev(n.args[0], st))
+            self.oblige(st, self.site(n, 'alloc'), nn >= 0, n)
+            return st.alloc(AV(self.lib.theory.decls['Arange'](nn), (nn,), 'int'))
         if short == 'repeat':
             # numpy.repeat(m, 2) of a 1-D array: the canonical spec term Repeat2(m)
             if len(n.args) != 2 or n.keywords or not (isinstance(n.args[1], ast.Constant) and n.args[1].value == 2):
@@ -2210,11 +2240,15 @@ class FuncVerifier(object):
         if callee.result_term is not None:
             # the callee's contract names a spec term that its result equals on its whole index range (an `ensures` of the callee,
             # proved there); arrays are determined by their in-range content, so the call site uses that very term
-            if not (isinstance(result, Ref) and isinstance(st.heap.get(result.loc), AV)):
-                raise ContractError('result_term on a non-array result of %s' % fname)
-            rt = spre.ev(callee.result_term)
-            old_av = st.heap[result.loc]
-            st.heap[result.loc] = AV(rt.term if isinstance(rt, AV) else rt, old_av.shape, old_av.elem)
+            pairs = list(zip(result, callee.result_term)) if isinstance(callee.result_term, (tuple, list)) else [(result, callee.result_term)]
+            for res_k, rt_k in pairs:
+                if rt_k is None:
+                    continue
+                if not (isinstance(res_k, Ref) and isinstance(st.heap.get(res_k.loc), AV)):
+                    raise ContractError('result_term on a non-array result of %s' % fname)
+                rt = spre.ev(rt_k)
+                old_av = st.heap[res_k.loc]
+                st.heap[res_k.loc] = AV(rt.term if isinstance(rt, AV) else rt, old_av.shape, old_av.elem)
         env_post = dict(env)
         env_post['result'] = result
         spost = SpecEval(self.lib.theory, env_post, st.heap, env, heap_pre, self.lib.preds)
